@@ -214,19 +214,12 @@ Section C09.
     walk_backward E (as_server C E ltb cur encode decode a) n (Datatypes.S (length S)) None = Done S.
   Proof. exact (walk_backward_exact C E ltb cur ltb_irrefl ltb_trans ltb_total encode decode). Qed.
 
-  (** Arbitrary cursor strings: rejected with an error or treated as some position in the cursor
-      order.  Full statement of C09: "arbitrary cursor strings never crash the server — they are
-      either rejected with an error or treated as some position in the cursor order."
-      Proved here: the dichotomy, for the model.  That the model's DeserializeCursor reaches a value
-      or an error on EVERY byte string within fuel = its length, without ever building a value
-      larger than the string, is [C09_cursor_decode_terminates] / [_bounded] / [_total] below.
-      Still missing (hence _partial): that the REAL base64 / msgpack decoders — transcribed in
-      CursorCodec.v for every msgpack type code, compared with the real ones on every hostile
-      string of the run (every first byte 0x00-0xff with truncated / maximal length fields, nested,
-      in skipped positions), observed under recover with the heap allocated by each call measured —
-      are memory safe; Go's memory model and stack are not modelled (the one crash this exposed,
-      a stack overflow on deeply nested input, is fixed by MaxCursorLength, see findings). *)
-  Theorem C09_arbitrary_cursor_partial : forall (a : app C E) edges S ar,
+  (** Arbitrary cursor strings, for ANY codec ([decode] an arbitrary function): rejected with the
+      error of their argument or treated as some position [af] / [bf] in the cursor order, at which
+      the answer is the full C09 answer.  The statement for the real codec — every byte string
+      decoded within a stated fuel, the panic outcome excluded, the model the check runs — is
+      [C09_arbitrary_cursor] below. *)
+  Theorem C09_arbitrary_cursor_any_codec : forall (a : app C E) edges S ar,
     app_ok C E ltb cur a edges S ->
     args_rejected (a_first ar) (a_last ar) = false ->
     serve C E ltb cur encode decode a ar = RError EInvalidAfter \/
@@ -364,6 +357,18 @@ Proof. exact first_last_dilemma. Qed.
 Theorem C09_skip_terminates : forall fuel todo b, (length b <= fuel)%nat -> mp_skip fuel todo b <> SkOutOfFuel.
 Proof. exact mp_skip_fuel. Qed.
 
+(** Go's Skip is recursive (the defect fixed by MaxCursorLength was its stack overflow).
+    [skip_depth] transcribes it in that shape — a container's elements are skipped by nested calls —
+    and reports how deep the calls were stacked: it computes exactly what the counting transcription
+    [mp_skip] (used by the decoder) computes, and the depth never exceeds the number of bytes it
+    consumed — hence, with [C09_cursor_decode_input_bounded], never 65536. *)
+Theorem C09_skip_depth_agrees : forall f k b, (length b <= f)%nat ->
+  dk_result (skip_depth f k b) = mp_skip f k b.
+Proof. exact skip_depth_agrees. Qed.
+
+Theorem C09_skip_depth_bounded : forall f k b r d, skip_depth f k b = DkOk r d -> (length r + d <= length b)%nat.
+Proof. exact skip_depth_bounded. Qed.
+
 (** DeserializeCursor: fuel = the length of the string always suffices ... *)
 Theorem C09_cursor_decode_terminates : forall fuel k s, (length s <= fuel)%nat -> cursor_decode_f fuel k s <> DOutOfFuel.
 Proof. exact cursor_decode_never_out_of_fuel. Qed.
@@ -407,6 +412,48 @@ Theorem C09_cursor_order : (forall a, cursor_ltb a a = false) /\
   (forall a b c, cursor_ltb a b = true -> cursor_ltb b c = true -> cursor_ltb a c = true) /\
   (forall a b, cursor_ltb a b = true \/ a = b \/ cursor_ltb b a = true).
 Proof. exact (conj cursor_ltb_irrefl (conj cursor_ltb_trans cursor_ltb_total)). Qed.
+
+(** ** "Arbitrary cursor strings never crash the server — they are either rejected with an error or
+    treated as some position in the cursor order": the clause of C09 at full strength, for the model
+    the check runs ([serve_f]: the Connection resolver with SerializeCursor / DeserializeCursor as
+    transcribed in CursorCodec.v — base64url, msgpack for int / string / TimeBasedCursor with
+    Decoder.Skip for every type code, MaxCursorLength), for every application that answers, ANY
+    count arguments and ANY byte strings as [after] / [before]:
+    (1) DeserializeCursor reaches a value or an error on every byte string within fuel = its length
+        (the explicit out-of-fuel outcome is excluded; [C09_cursor_decode_bounded] /
+        [_input_bounded] bound what it builds and what it hands to msgpack, [C09_skip_depth_bounded]
+        the recursion depth of Skip);
+    (2) the field never answers with the panic outcome (every Go panic of the transcribed code —
+        slicing with a negative count, a missing count — is an explicit outcome of the model);
+    (3) rejected counts are one of the four argument errors;
+    (4) otherwise each cursor string is either rejected with the error of its argument or decoded to
+        a cursor value [af] / [bf] — a position in the total cursor order, whether or not an edge
+        carries it — and the answer is the full C09 answer at those positions ([response_ok]),
+        delivered with the serialised cursors.
+    What a Coq theorem about a transcription cannot say — that the Go runtime executes encoding/
+    base64 and vmihailenco/msgpack as transcribed (memory safety of the real library) — is the tie,
+    not the theorem: every hostile string of the run is decoded by the real code under recover with
+    its allocation measured and compared with the transcription (trusted base, level_note). *)
+Theorem C09_arbitrary_cursor :
+  forall (E : Type) (cur : E -> cursor) (k : kind) (a : app cursor E) edges S ar sel,
+  app_ok cursor E cursor_ltb cur a edges S ->
+  (forall e, In e S -> kind_of (cur e) = k /\ cursor_ok (cur e)) ->
+  (forall s, cursor_decode_f (length s) k s <> DOutOfFuel) /\
+  serve_f cursor E cursor_ltb cur cursor_encode_f (cursor_decode k) sel a ar <> FError EPanicked /\
+  (args_rejected (a_first ar) (a_last ar) = true ->
+     exists e, serve_f cursor E cursor_ltb cur cursor_encode_f (cursor_decode k) sel a ar = FError e /\
+               (e = EFirstNegative \/ e = EBothFirstLast \/ e = ELastNegative \/ e = ENoCount)) /\
+  (args_rejected (a_first ar) (a_last ar) = false ->
+     serve_f cursor E cursor_ltb cur cursor_encode_f (cursor_decode k) sel a ar = FError EInvalidAfter \/
+     serve_f cursor E cursor_ltb cur cursor_encode_f (cursor_decode k) sel a ar = FError EInvalidBefore \/
+     exists af bf,
+       decode_arg cursor (cursor_decode k) (a_after ar) EInvalidAfter = Ok af /\
+       decode_arg cursor (cursor_decode k) (a_before ar) EInvalidBefore = Ok bf /\
+       response_ok cursor E cursor_ltb cur cursor_encode S af bf (a_first ar) (a_last ar)
+         (serve cursor E cursor_ltb cur cursor_encode (cursor_decode k) a ar) /\
+       serve_f cursor E cursor_ltb cur cursor_encode_f (cursor_decode k) sel a ar =
+         lift cursor E cur cursor_encode sel (serve cursor E cursor_ltb cur cursor_encode (cursor_decode k) a ar)).
+Proof. exact (fun E cur k a edges S ar sel Happ Hcur => arbitrary_cursor_codec E cur k a edges S Happ Hcur ar sel). Qed.
 
 (** ** Stage B: "paging visits each edge once" for the model the check runs — SerializeCursor /
     DeserializeCursor with MaxCursorLength, int, string and struct (TimeBasedCursor) cursors — through
@@ -489,7 +536,7 @@ Print Assumptions C09_relay_window_equiv.
 Print Assumptions C09_relay_promise_equiv.
 Print Assumptions C09_walk_forward_exact.
 Print Assumptions C09_walk_backward_exact.
-Print Assumptions C09_arbitrary_cursor_partial.
+Print Assumptions C09_arbitrary_cursor_any_codec.
 Print Assumptions C09_cursor_roundtrip.
 Print Assumptions C09_cursor_encode_nonempty.
 Print Assumptions C09_walk_forward_exact_codec.
@@ -515,3 +562,6 @@ Print Assumptions C09_cost_bounds_page.
 Print Assumptions C09_walk_forward_exact_dir_codec.
 Print Assumptions C09_walk_backward_exact_dir_codec.
 Print Assumptions C09_time_resolve_edges_delivers.
+Print Assumptions C09_arbitrary_cursor.
+Print Assumptions C09_skip_depth_agrees.
+Print Assumptions C09_skip_depth_bounded.
